@@ -990,10 +990,18 @@ func faulty(s *Scenario, log *core.Log) core.Result {
 	res.Count("byte-edit", int64(fired))
 	// reach probes on what the decoder will see
 	bLen, hasB, seenA := 35, false, false
+	// possibleFixes is an upper bound of the number of fixes the stream can
+	// hold: B records (wherever the decoder takes the A record to be) that are at least as long as the
+	// format's shortest B record and carry N/S and E/W where the hemisphere
+	// letters belong. (Nothing else about a record's validity is judged here.)
+	possibleFixes := 0
 	for _, ln := range strings.Split(string(text), "\n") {
 		ln = strings.TrimSuffix(ln, "\r")
 		if len(ln) == 0 {
 			continue
+		}
+		if ln[0] == 'B' && len(ln) >= 35 && (ln[14] == 'N' || ln[14] == 'S') && (ln[23] == 'E' || ln[23] == 'W') {
+			possibleFixes++
 		}
 		if !seenA {
 			if ln[0] == 'A' {
@@ -1053,6 +1061,12 @@ func faulty(s *Scenario, log *core.Log) core.Result {
 	}
 	if t.LineString.Stride() != 5 || t.LineString.Layout().Stride() != 5 || len(t.LineString.FlatCoords())%5 != 0 {
 		res.Fail("not-5d", "not-5d", "Read returned layout %s stride %d with %d ordinates", t.LineString.Layout(), t.LineString.Stride(), len(t.LineString.FlatCoords()))
+		return res
+	}
+	if n := t.LineString.NumCoords(); n > possibleFixes && len(text) < 60000 {
+		// (lines beyond the scanner's token limit end the decode early; the
+		// bound is only stated for streams without them)
+		res.Fail("phantom-fix", "phantom-fix", "Read returned %d fixes, but the stream holds only %d B records that are long enough and carry hemisphere letters; stream:\n%s", n, possibleFixes, head(text))
 		return res
 	}
 	if err != nil {
